@@ -17,6 +17,14 @@ matched / matched but failing; estimates: two detections of one ground truth).  
 through object identity (`==`, `in`, `remove`: which unmatched ground truths become FN or TN, num_success /
 num_fail, ground-truth counts per label) must come out the same in both renderings; the Lean model states why
 (`samePose_toMap`: a rigid motion is injective) and its equality tables are compared with the real `==`.
+
+"All filter configurations" and "all scenes" include 3-D scenes and every filter criterion.  The 'criteria' family
+enumerates both range kinds (x/y box, distance ring) at both filter levels (evaluation config, critical object filter)
+together with minimum point counts, confidence thresholds, target uuids and ignored attributes, in scenes whose
+objects and ego have heights of several (hundred) metres; each criterion has objects it alone removes, and the
+elevated ones are placed so that a 3-D norm in place of the BEV distance would change the kept set.  The Lean model
+(`kept_toMap`, `bevDist2_toMap`) states that the kept set and the BEV distance are the same in both renderings of
+any 3-D scene; the model's kept ground truths, heights and BEV distances are compared with the real ones.
 """
 from __future__ import annotations
 
@@ -34,25 +42,35 @@ RULE = (
     "persistent uuids and moving ego; 'far' family: the same kind of scenes with ego translations of 5e4 .. 1e6 m (both axes, one axis, "
     "mixed signs) and 1-2 pairs of twins per frame (same label/yaw/height/time, 1/1024 .. 1 m apart; ground-truth twins with one / none / "
     "both matched or a failing match, estimate twins around one ground truth), detection and tracking. "
+    "'criteria' family (ENUMERATED, the seed only jitters placements inside safe bands): 3-D scenes (object heights -5 .. +16 m relative "
+    "to the ego, ego height in the map -88 .. +612 m, one in seven 0) x range kind of the evaluation config (x/y box | distance ring, per-label "
+    "lists) x range kind of the critical filter x {all optional criteria on, all off, each of min_point_numbers / confidence / target_uuids / "
+    "ignore_attributes alone at either level; thorough: all but one, 18 random subsets} as detection scenes + tracking sequences; every scene holds, "
+    "per level and criterion, ground truths/estimates which that criterion alone removes and companions at / inside its bound (x only, y only, "
+    "between the two axis bounds, pair straddling the bound, beyond max, inside the min ring, elevated objects whose 3-D distance is on the other "
+    "side of the ring bound than their BEV distance, point count below/at/above, confidence below/above, uuid not listed, ignored / other attribute, "
+    "non-target label, unknown-labelled estimate); the histogram lists what happened to every witness. "
     "non-trivial = at least one estimate-GT pair survives the filters; distinct = distinct JSON"
 )
 THEOREMS = ["PEval.C07." + t for t in [
     "egoPos_toMap", "position_decision_frame_free", "filter_toMap", "centerDist2_toMap", "planeDist2_toMap", "iou_toMap",
     "aphWeight_toMap", "headingError_toMap", "scoreRow_toMap", "scoreRow_toMap_decisions", "scoreTable_toMap",
-    "downstream_frame_free", "samePose_toMap", "containsPose_toMap", "sameTable_toMap", "distinct_toMap"]]
+    "downstream_frame_free", "samePose_toMap", "containsPose_toMap", "sameTable_toMap", "distinct_toMap",
+    "egoPos3_toMap", "bevDist2_toMap", "bevDist2_height_free", "filter2_renderMap", "kept_toMap"]]
 TRUSTED = [
     "pyquaternion yaw_pitch_roll / rotation composition and numpy matrix products (external contracts, exercised by every case)",
     "shapely polygon intersection (IoU scores are compared between the two renderings within 1e-6)",
 ]
 ASSUMPTIONS = [
-    "ego poses are yaw + planar translation (the property's quantifier), translations up to 2^20 m",
+    "ego poses are yaw + translation (planar up to 2^20 m, height up to some hundred metres; no roll/pitch: the property's quantifier is translation and yaw)",
+    "filter configurations are those the configs accept: one range kind per level (x/y box or min/max distance), scalar or per-label lists",
     "no two objects of a frame are equal under DynamicObject.__eq__ (twins are distinct objects: they differ in position by >= 1/1024 m)",
     "no decision within 1e-6 of its boundary, no two matches of a frame with center distances within 1e-6 of each other "
     "(margins are checked on the ego rendering; such scenes are counted as skipped)",
 ]
 
 LABELS = ["car", "bicycle", "pedestrian", "motorbike"]
-MEMBER = {"car": "CAR", "bicycle": "BICYCLE", "pedestrian": "PEDESTRIAN", "motorbike": "MOTORBIKE", "unknown": "UNKNOWN"}
+MEMBER = {"car": "CAR", "bicycle": "BICYCLE", "pedestrian": "PEDESTRIAN", "motorbike": "MOTORBIKE", "unknown": "UNKNOWN", "bus": "BUS"}
 MARGIN = 1e-6
 
 
@@ -249,6 +267,187 @@ def _far_scene(rng, task):
     return c
 
 
+# ---- the 'criteria' family: full 3-D content, every filter criterion, both filter levels ---------------------
+# Real scenes are not flat and real configurations use more than a range: objects stand metres above or below the
+# ego, the ego's height in the map is not zero, and both the evaluation config and the critical object filter may
+# carry an x/y box OR a distance ring, minimum point counts, confidence thresholds, target uuids and ignored
+# attributes.  Each scene of this family holds, for EVERY criterion of BOTH levels, objects that this criterion and
+# only this criterion removes (plus companions at / just inside the bound that it must keep), placed so that the
+# kept set changes if a height leaks into a planar decision (3-D norm instead of the BEV distance, map height not
+# reduced by the ego's) or if a criterion is skipped or applied twice in one rendering only.  The structure is
+# ENUMERATED (range kinds of the two levels x task x which optional criteria are switched on); `rng` only jitters
+# thresholds and placements inside bands that keep every decision >= 0.5 m (or one point, 0.1 confidence) away
+# from its bound.
+CRITERIA = ["attr", "min_pts", "conf", "uuid"]  # optional criteria of a level (labels and the range are always on)
+SWITCHES = [f"{lv}:{c}" for lv in ("mgr", "crit") for c in CRITERIA]
+LOOSE, TIGHT = ("pedestrian", "motorbike"), ("car", "bicycle")  # critical filter wider / narrower than the config's
+HEIGHTS = [0.0, 1.25, -2.5, 4.0, -0.75, 7.5, 2.0, -5.0, 0.5, 3.25, -1.5, 6.0]
+EGO_Z = [37.5, -12.25, 151.5, 4.75, -88.0, 612.25, 0.0]
+SIZES = {"car": (1.9, 4.5, 1.6), "bicycle": (0.7, 1.8, 1.5), "pedestrian": (0.6, 0.7, 1.7), "motorbike": (0.8, 2.1, 1.5),
+         "bus": (2.6, 10.0, 3.2), "unknown": (1.0, 1.0, 1.0)}
+MGR_PTS, CRIT_PTS = [3, 2, 4, 5], [6, 5, 0, 0]
+MGR_CONF, CRIT_CONF = [0.3, 0.35, 0.4, 0.25], [0.55, 0.6, 0.1, 0.05]
+INNER = [(13.5, 30.0 * k + 7.0) for k in range(12)] + [(18.5, 22.5 * k + 3.0) for k in range(16)]  # (radius, degrees)
+
+
+def criteria_masks(tier, rng):
+    """which optional criteria are on: all, none, each alone (thorough tier: + all but one, + random subsets)"""
+    n = len(SWITCHES)
+    masks = [[True] * n, [False] * n]
+    masks += [[i == k for i in range(n)] for k in range(n)]
+    if tier != "quick":
+        masks += [[i != k for i in range(n)] for k in range(n)]
+        masks += [[rng.random() < 0.5 for _ in range(n)] for _ in range(18)]
+    return masks
+
+
+def _criteria_scene(rng, fk, ck, task, mask, idx):
+    on = {s: bool(m) for s, m in zip(SWITCHES, mask)}
+    qj = lambda w: rng.randint(-int(w * 4), int(w * 4)) / 4.0  # noqa: E731  quarter-metre jitter
+    li = {lab: i for i, lab in enumerate(LABELS)}
+    if fk == "xy":
+        flt = {"kind": "xy", "max_x": [60.0 + qj(1.5) for _ in LABELS], "max_y": [40.0 + qj(1.5) for _ in LABELS]}
+    else:
+        flt = {"kind": "dist", "max": [60.0 + qj(1.5) for _ in LABELS], "min": [6.0 + qj(0.5) for _ in LABELS]}
+    if ck == "xy":
+        crit = {"kind": "xy", "max_x": [v + qj(1.5) for v in (44.0, 38.0, 90.0, 85.0)], "max_y": [v + qj(1.5) for v in (30.0, 26.0, 90.0, 85.0)]}
+    else:
+        crit = {"kind": "dist", "max": [v + qj(1.5) for v in (45.0, 40.0, 85.0, 80.0)], "min": [v + qj(0.5) for v in (10.0, 11.0, 2.0, 3.0)]}
+    gts, ests, placed = [], [], []
+    hcyc = [HEIGHTS[(idx + k) % len(HEIGHTS)] for k in range(len(HEIGHTS))]
+
+    def put(name, lab, x, y, z=None, pc=10, attrs=None, score=None, gt=True, est=True, est_lab=None, est_at=None):
+        """one ground truth and/or the estimate on it; the k-th pair is a_k = 0.04 (k + 1) + odd/1024 apart"""
+        k = len(placed)
+        z = hcyc[k % len(hcyc)] if z is None else z
+        w, l, h = SIZES[lab]
+        yaw = round(rng.uniform(-math.pi, math.pi), 4)
+        placed.append((x, y))
+        g = {"id": k, "x": round(x, 3), "y": round(y, 3), "z": z, "yaw": yaw, "label": lab, "w": w, "l": l, "h": h,
+             "uuid": f"g_{name}", "pc": pc, "role": name}
+        if attrs:
+            g["attrs"] = list(attrs)
+        if gt:
+            gts.append(g)
+        if est:
+            a = 0.04 * (k + 1) + rng.choice([1, 3, 5, 7]) / 1024.0
+            th = rng.uniform(-math.pi, math.pi)
+            ex, ey = (g["x"] + a * math.cos(th), g["y"] + a * math.sin(th)) if est_at is None else est_at
+            e = dict(g, id=k, x=round(ex, 4), y=round(ey, 4), z=z + (0.25 if k % 3 == 2 else 0.0), uuid=f"t_{name}",
+                     label=est_lab or lab, score=score if score is not None else rng.choice([0.7, 0.75, 0.8, 0.85, 0.9, 0.95]),
+                     yaw=round(math.remainder(yaw + rng.choice([0.0, 0.05, -0.1, 0.3]), 2 * math.pi), 4))
+            e.pop("attrs", None)
+            e.pop("pc", None)
+            ests.append(e)
+
+    def polar(r, deg):
+        return r * math.cos(math.radians(deg)), r * math.sin(math.radians(deg))
+
+    s1, s2 = rng.choice([1, -1]), rng.choice([1, -1])
+    for lv, spec, group, rot in (("mgr", flt, LOOSE, 0.0), ("crit", crit, TIGHT, -8.0)):
+        lab = group[idx % 2]
+        i = li[lab]
+        zs = rng.choice([1, -1])
+        if spec["kind"] == "xy":
+            X, Y = spec["max_x"][i], spec["max_y"][i]
+            put(f"{lv}-x-out", lab, s1 * (X + 3.0), s2 * 10.0)
+            put(f"{lv}-y-out", lab, -s1 * 15.0, s2 * (Y + 3.0))
+            if X - Y >= 4.0:
+                put(f"{lv}-between-axes", lab, s1 * (X + Y) / 2.0, -s2 * 20.0)
+            gx, gy = -s1 * (X - 0.75), s2 * Y / 2.0
+            put(f"{lv}-straddle", lab, gx, gy, est_at=(-s1 * (X + 0.75), gy))
+        else:
+            R, r0 = spec["max"][i], spec["min"][i]
+            far = [20.0, 200.0] if lv == "mgr" else [12.0, 192.0]
+            near = [100.0, 220.0, 340.0] if lv == "mgr" else [40.0, 160.0, 280.0]
+            if s1 < 0:
+                far = [a + 180.0 for a in far]
+            put(f"{lv}-beyond-max", lab, *polar(R + 3.0, far[0] + rot * 0), z=0.5)
+            put(f"{lv}-high-inside-max", lab, *polar(R - 1.0, far[1]), z=zs * 16.0)
+            put(f"{lv}-below-min-flat", lab, *polar(r0 - 2.0, near[0]), z=0.25)
+            put(f"{lv}-high-below-min", lab, *polar(r0 - 1.5, near[1]), z=-zs * 7.5)
+            put(f"{lv}-just-above-min", lab, *polar(r0 + 1.25, near[2]), z=-0.5)
+    # everything else stands in the ring 13 .. 19 m, inside every range of both levels for every label
+    slots = INNER[idx % len(INNER):] + INNER[:idx % len(INNER)]
+
+    def inner(name, lab, **kw):
+        while slots:
+            r, deg = slots.pop(0)
+            x, y = polar(r + qj(0.25), deg)
+            if all(math.hypot(x - px, y - py) >= 5.0 for px, py in placed):
+                return put(name, lab, x, y, **kw)
+        raise RuntimeError("no free slot")
+
+    # a criterion that is switched on gets its full set of witnesses (below / at / above its bound), one that is
+    # switched off only the object it would remove (which now has to stay in both renderings)
+    lm, lc = LOOSE[(idx // 2) % 2], TIGHT[(idx // 2) % 2]
+    for lv, lab, pts in (("mgr", lm, MGR_PTS), ("crit", lc, CRIT_PTS)):
+        t = pts[li[lab]]
+        inner(f"{lv}-pts-below", lab, pc=t - 1)
+        if on[f"{lv}:min_pts"]:
+            inner(f"{lv}-pts-at", lab, pc=t)
+            inner(f"{lv}-pts-above", lab, pc=t + rng.randint(1, 40))
+    inner("mgr-conf-below", lm, score=round(MGR_CONF[li[lm]] - 0.15, 2))
+    if on["mgr:conf"]:
+        inner("mgr-conf-above", lm, score=round(MGR_CONF[li[lm]] + 0.15, 2))
+    inner("crit-conf-below", lc, score=round(CRIT_CONF[li[lc]] - 0.1, 2))  # above the evaluation config's threshold
+    if on["crit:conf"]:
+        inner("crit-conf-above", lc, score=round(CRIT_CONF[li[lc]] + 0.1, 2))
+    inner("mgr-uuid", lm)
+    inner("crit-uuid", lc)
+    inner("mgr-attr", lm, attrs=["parked"])
+    inner("crit-attr", lc, attrs=["occluded", "moving"])
+    if on["mgr:attr"] or on["crit:attr"]:
+        inner("other-attr", lc, attrs=["moving"])
+    inner("label-bus", "bus")
+    inner("unknown-est", "car", est_lab="unknown")
+    inner("plain", rng.choice(TIGHT))
+    inner("lonely-gt", rng.choice(LABELS), est=False)
+    inner("lonely-est", rng.choice(LABELS), gt=False)
+    all_uuids = [g["uuid"] for g in gts]
+    cfg = _cfg(rng)
+    cfg["filter"], cfg["crit"] = flt, crit
+    if rng.random() < 0.7:
+        cfg["radii"] = [round(rng.uniform(2.5, 4.0), 2) for _ in LABELS]  # mostly: an estimate matches its own ground truth or nothing
+    cfg["min_pts"] = list(MGR_PTS) if on["mgr:min_pts"] else ([0, 0, 0, 0] if task == "detection" else None)
+    cfg["conf"] = list(MGR_CONF) if on["mgr:conf"] else None
+    cfg["uuids"] = [u for u in all_uuids if u != "g_mgr-uuid"] if on["mgr:uuid"] else None
+    cfg["ignore"] = ["parked"] if on["mgr:attr"] else None
+    crit["min_pts"] = list(CRIT_PTS) if on["crit:min_pts"] else None
+    crit["conf"] = list(CRIT_CONF) if on["crit:conf"] else None
+    crit["uuids"] = [u for u in all_uuids if u != "g_crit-uuid"] if on["crit:uuid"] else None
+    crit["ignore"] = ["occluded"] if on["crit:attr"] else None
+    frames = []
+    for f in range(1 if task == "detection" else 2):
+        if f > 0:  # everything drifts by at most 0.25 m (all bounds are >= 0.5 m away), one track changes its id
+            dx, dy = rng.choice([-0.25, -0.125, 0.125, 0.25]), rng.choice([-0.25, -0.125, 0.125, 0.25])
+            gts = [dict(g, x=round(g["x"] + dx, 4), y=round(g["y"] + dy, 4)) for g in gts]
+            ests = [dict(e, x=round(e["x"] + dx, 4), y=round(e["y"] + dy, 4)) for e in ests]
+            ests = [dict(e, uuid=e["uuid"] + "'") if e["role"] == "plain" else e for e in ests]
+        order = list(ests)
+        rng.shuffle(order)
+        pose = _pose(rng) if (idx + f) % 5 else _far_pose(rng)
+        pose["tz"] = EGO_Z[(idx + 3 * f) % len(EGO_Z)]
+        frames.append({"t": 1000 * (f + 1), "gts": [dict(g) for g in gts], "ests": order, "pose": pose, "history": (idx + f) % 3 == 0})
+    return {"kind": "scene", "family": "criteria", "task": task, "frames": frames, "cfg": cfg,
+            "on": [s for s in SWITCHES if on[s]]}
+
+
+def _criteria_cases(rng, tier):
+    """every mask x both range kinds at both levels as a detection scene, plus one tracking sequence per mask whose
+    range kinds rotate (thorough tier: tracking for every combination)"""
+    cases, idx = [], 0
+    kinds = [(fk, ck) for fk in ("xy", "dist") for ck in ("xy", "dist")]
+    for m, mask in enumerate(criteria_masks(tier, rng)):
+        for k, (fk, ck) in enumerate(kinds):
+            cases.append(_criteria_scene(rng, fk, ck, "detection", mask, idx))
+            idx += 1
+            if tier != "quick" or k == m % 4:
+                cases.append(_criteria_scene(rng, fk, ck, "tracking", mask, idx))
+                idx += 1
+    return cases
+
+
 def corpus():
     # F2 (fixed): map-frame results, critical filter narrower than the manager filter
     g = [{"id": 0, "x": 10.0, "y": 0.0, "yaw": 0.0, "label": "car", "w": 2.0, "l": 4.0, "h": 1.5, "uuid": "g0"},
@@ -273,7 +472,26 @@ def corpus():
         cs.append({"kind": "scene", "task": "detection", "far": True, "cfg": cfg,
                    "frames": [{"t": 1000, "gts": g3, "ests": e3, "pose": {"t": "1/3", "tx": tx, "ty": ty},
                                "twins": [{"variant": "one-matched", "ids": [0, 1], "off": math.hypot(*off)}]}]})
-    return [c1, c2] + cs
+    # 3-D corner cases.  (a) distance ring at both levels, ego 37.5 m above the map origin: a car on an overpass (6.7 m
+    # away in bird's-eye view, 7 m above the ego: inside the minimum distance, 3-D distance outside it), a car on a ramp
+    # just inside the maximum distance (58 m, 16 m up: 3-D distance beyond it), a car on the road
+    car = dict(g[0])
+    g4 = [dict(car, id=0, x=6.0, y=3.0, z=7.0, uuid="g0"), dict(car, id=1, x=-58.0, y=0.5, z=16.0, uuid="g1"),
+          dict(car, id=2, x=15.0, y=-4.0, z=-0.5, uuid="g2")]
+    e4 = [dict(o, id=o["id"], x=o["x"] + 0.125 * (o["id"] + 1), uuid=f"e{o['id']}", score=0.9) for o in g4]
+    ring = dict(cfg, filter={"kind": "dist", "max": 60.0, "min": 8.0},
+                crit={"kind": "dist", "max": [59.0] * 4, "min": [8.5] * 4})
+    c3 = {"kind": "scene", "task": "detection", "cfg": ring,
+          "frames": [{"t": 1000, "gts": g4, "ests": e4, "pose": {"t": "1/4", "tx": 1000.0, "ty": 2000.0, "tz": 37.5}}]}
+    # (b) x/y box at both levels with minimum point counts: sparse ground truths (below the evaluation config's count,
+    # between the two counts, at the critical filter's count), none of them on the ego's level
+    g5 = [dict(car, id=0, x=10.0, y=0.0, z=2.5, pc=2, uuid="g0"), dict(car, id=1, x=20.0, y=5.0, z=-1.5, pc=4, uuid="g1"),
+          dict(car, id=2, x=-12.0, y=-6.0, z=4.0, pc=6, uuid="g2")]
+    e5 = [dict(o, id=o["id"], x=o["x"] + 0.125 * (o["id"] + 1), uuid=f"e{o['id']}", score=0.9) for o in g5]
+    box = dict(cfg, min_pts=[3, 3, 3, 3], crit=dict(cfg["crit"], min_pts=[6, 6, 6, 6]))
+    c4 = {"kind": "scene", "task": "detection", "cfg": box,
+          "frames": [{"t": 1000, "gts": g5, "ests": e5, "pose": {"t": "-2/3", "tx": -300.5, "ty": 42.0, "tz": -12.25}}]}
+    return [c1, c2] + cs + [c3, c4]
 
 
 def generate(rng, tier):
@@ -282,6 +500,8 @@ def generate(rng, tier):
     # the far/twin family is drawn after the base cases, which therefore stay what they were for a given seed
     n_fdet, n_ftrk = (60, 14) if tier == "quick" else (700, 160)
     cases += [_far_scene(rng, "detection") for _ in range(n_fdet)] + [_far_scene(rng, "tracking") for _ in range(n_ftrk)]
+    # the criteria family is enumerated (its structure does not depend on the seed) and drawn last
+    cases += _criteria_cases(rng, tier)
     return cases
 
 
@@ -298,7 +518,39 @@ def _manager(case, frame):
         d.update(max_x_position=None, max_y_position=None, max_distance=c["filter"]["max"], min_distance=c["filter"]["min"])
     if case["task"] == "tracking":
         d["min_point_numbers"] = None
+    # the other criteria of the evaluation config (scalars or per-label lists, as the config accepts them)
+    if c.get("min_pts") is not None:
+        d["min_point_numbers"] = c["min_pts"]
+    if c.get("conf") is not None:
+        d["confidence_threshold"] = c["conf"]
+    if c.get("uuids") is not None:
+        d["target_uuids"] = list(c["uuids"])
+    if c.get("ignore") is not None:
+        d["ignore_attributes"] = list(c["ignore"])
     return B.mk_manager(d, frame)
+
+
+def _crit_kwargs(c):
+    """keyword arguments of CriticalObjectFilterConfig: the range kind plus every other criterion that is configured"""
+    k = c["crit"]
+    kw = ({"max_x_position_list": k["max_x"], "max_y_position_list": k["max_y"]} if k["kind"] == "xy"
+          else {"max_distance_list": k["max"], "min_distance_list": k["min"]})
+    for key, name in (("min_pts", "min_point_numbers"), ("conf", "confidence_threshold_list"), ("uuids", "target_uuids"),
+                      ("ignore", "ignore_attributes")):
+        if k.get(key) is not None:
+            kw[name] = list(k[key])
+    return kw
+
+
+def _e2m(fr):
+    cc, ss = B.rat_rot(Fraction(fr["pose"]["t"]))
+    return B.ego2map(fr["pose"]["tx"], fr["pose"]["ty"], B.yaw_of(cc, ss), fr["pose"].get("tz", 0.0))
+
+
+def _real(o, fr):
+    """the REAL object of a scene entry, in the ego frame (3-D position, point count, label attributes)"""
+    return B.mk_obj(o["x"], o["y"], o["yaw"], MEMBER[o["label"]], o.get("score", 1.0), "base_link", o["uuid"], fr["t"],
+                    (o["w"], o["l"], o["h"]), z=o.get("z", 0.0), pc=o.get("pc", 10), attributes=o.get("attrs"))
 
 
 def _render(case, frame):
@@ -306,20 +558,15 @@ def _render(case, frame):
     m = _manager(case, frame)
     cfg = m.evaluator_config
     c = case["cfg"]
-    if c["crit"]["kind"] == "xy":
-        crit = B.crit_cfg(cfg, LABELS, max_x_position_list=c["crit"]["max_x"], max_y_position_list=c["crit"]["max_y"])
-    else:
-        crit = B.crit_cfg(cfg, LABELS, max_distance_list=c["crit"]["max"], min_distance_list=c["crit"]["min"])
+    crit = B.crit_cfg(cfg, LABELS, **_crit_kwargs(c))
     pf = B.pf_cfg(cfg, LABELS, c["pf_thr"])
     out = {"frames": []}
     for fr in case["frames"]:
-        cc, ss = B.rat_rot(Fraction(fr["pose"]["t"]))
-        e2m = B.ego2map(fr["pose"]["tx"], fr["pose"]["ty"], B.yaw_of(cc, ss))
+        e2m = _e2m(fr)
         eid, gid = {}, {}
 
         def mk(o, est):
-            ob = B.mk_obj(o["x"], o["y"], o["yaw"], MEMBER[o["label"]], o.get("score", 1.0), "base_link", o["uuid"],
-                          fr["t"], (o["w"], o["l"], o["h"]))
+            ob = _real(o, fr)
             if frame == "map":
                 ob = B.to_map(ob, e2m)
             (eid if est else gid)[id(ob)] = o["id"]
@@ -353,6 +600,14 @@ def _render(case, frame):
     return out
 
 
+def _bev(o, td):
+    """`DynamicObject.get_distance_bev` (the distance of the ring filter); None when the method is not there in this form"""
+    try:
+        return float(o.get_distance_bev() if td is None else o.get_distance_bev(td))
+    except (AttributeError, TypeError):
+        return None
+
+
 def _aph(r):
     from perception_eval.evaluation.metrics.detection.tp_metrics import TPMetricsAph
 
@@ -382,23 +637,29 @@ def _trk(ms):
 
 
 def _margins_ok(case):
-    """every decision of the ego rendering is at least MARGIN away from its boundary"""
+    """every range decision of the ego rendering is at least 1e-4 away from its boundary (planar quantities: the
+    property's filter decisions are taken on x, y and the BEV distance)"""
     c = case["cfg"]
+    own = case.get("family") == "criteria"  # per-label lists: only the bound of the object's own label is consulted
+
+    def vals(v, o):
+        if not isinstance(v, list):
+            return [v]
+        if not own:
+            return v
+        if o["label"] in LABELS:
+            return [v[LABELS.index(o["label"])]]
+        return [sum(v) / len(v)] if o["label"] == "unknown" else []  # relaxed unknown estimate: np.mean; non-target: none
+
     for fr in case["frames"]:
-        objs = fr["gts"] + fr["ests"]
-        for o in objs:
+        for o in fr["gts"] + fr["ests"]:
             d = math.hypot(o["x"], o["y"])
             bounds = []
-            for spec in (c["filter"], ):
+            for spec in (c["filter"], c["crit"]):
                 if spec["kind"] == "xy":
-                    bounds += [(abs(o["x"]), spec["max_x"]), (abs(o["y"]), spec["max_y"])]
+                    bounds += [(abs(o["x"]), v) for v in vals(spec["max_x"], o)] + [(abs(o["y"]), v) for v in vals(spec["max_y"], o)]
                 else:
-                    bounds += [(d, spec["max"]), (d, spec["min"])]
-            sp = c["crit"]
-            if sp["kind"] == "xy":
-                bounds += [(abs(o["x"]), v) for v in sp["max_x"]] + [(abs(o["y"]), v) for v in sp["max_y"]]
-            else:
-                bounds += [(d, v) for v in sp["max"]] + [(d, v) for v in sp["min"]]
+                    bounds += [(d, v) for v in vals(spec["max"], o)] + [(d, v) for v in vals(spec["min"], o)]
             if any(abs(a - b) < 1e-4 for a, b in bounds):
                 return False
     return True
@@ -415,33 +676,33 @@ def _pair_obs(case):
     from perception_eval.evaluation.result.object_result import DynamicObjectWithPerceptionResult as R
 
     fr = case["frames"][0]
-    cc, ss = B.rat_rot(Fraction(fr["pose"]["t"]))
-    e2m = B.ego2map(fr["pose"]["tx"], fr["pose"]["ty"], B.yaw_of(cc, ss))
+    e2m = _e2m(fr)
     td = B.mk_transforms(e2m, history=bool(fr.get("history")))
 
     def both(o):
-        a = B.mk_obj(o["x"], o["y"], o["yaw"], MEMBER[o["label"]], o.get("score", 1.0), "base_link", o["uuid"], fr["t"],
-                     (o["w"], o["l"], o["h"]))
+        a = _real(o, fr)
         m = B.to_map(a, e2m)
         back = td.transform((FrameID.MAP, FrameID.BASE_LINK), m.state.position)
-        return a, m, [float(v) for v in m.state.position], [float(back[0]), float(back[1])], float(m.state.orientation.yaw_pitch_roll[0])
+        return (a, m, [float(v) for v in m.state.position], [float(v) for v in back[:3]], float(m.state.orientation.yaw_pitch_roll[0]),
+                _bev(a, None), _bev(m, td))
 
     ests = [both(o) for o in fr["ests"]]
     gts = [both(o) for o in fr["gts"]]
     pairs = []
-    for i, (ea, em, *_r) in enumerate(ests):
-        for j, (ga, gm, *_r2) in enumerate(gts):
-            if len(pairs) >= MAX_PAIRS:
-                break
-            re_, rm = R(ea, ga), R(em, gm, transforms=td)
-            corners = np.array(ga.get_footprint().exterior.coords)[:4, :2]
-            d = sorted(float(np.hypot(*c)) for c in corners)
+    order = [(i, j) for i in range(len(ests)) for j in range(len(gts))]
+    if case.get("family") == "criteria":  # large scenes: every other estimate with its nearest ground truth first
+        near = [(i, min(range(len(gts)), key=lambda j: math.hypot(fr["ests"][i]["x"] - fr["gts"][j]["x"], fr["ests"][i]["y"] - fr["gts"][j]["y"])))
+                for i in range(0, len(ests), 2)] if gts else []
+        order = near[:MAX_PAIRS - 2] + [p for p in order if p not in near]
+    def row(r):
+        return [r.center_distance.value, r.plane_distance.value, r.iou_2d.value, r.iou_3d.value, _aph(r), r.heading_error[2]]
 
-            def row(r):
-                return [r.center_distance.value, r.plane_distance.value, r.iou_2d.value, r.iou_3d.value, _aph(r),
-                        r.heading_error[2]]
-
-            pairs.append({"i": i, "j": j, "ego": row(re_), "map": row(rm), "rank_margin": d[2] - d[1]})
+    for i, j in order[:MAX_PAIRS]:
+        (ea, em, *_r), (ga, gm, *_r2) = ests[i], gts[j]
+        re_, rm = R(ea, ga), R(em, gm, transforms=td)
+        corners = np.array(ga.get_footprint().exterior.coords)[:4, :2]
+        d = sorted(float(np.hypot(*c)) for c in corners)
+        pairs.append({"i": i, "j": j, "ego": row(re_), "map": row(rm), "rank_margin": d[2] - d[1]})
     # who is equal to whom under DynamicObject.__eq__, in both renderings (index 0: ego object, 1: map object)
     same = {f"{side}_{nm}": [[bool(a[k] == b[k]) for b in objs] for a in objs]
             for side, objs in (("gts", gts), ("ests", ests)) for k, nm in ((0, "ego"), (1, "map"))}
@@ -482,7 +743,7 @@ def run_impl(case):
 # ----------------------------------------------------------------------------- correspondence with the Lean model
 
 def _mobj(o):
-    return {"x": core.q(o["x"]), "y": core.q(o["y"]), "z": "0", "c": core.q(math.cos(o["yaw"])), "s": core.q(math.sin(o["yaw"])),
+    return {"x": core.q(o["x"]), "y": core.q(o["y"]), "z": core.q(o.get("z", 0.0)), "c": core.q(math.cos(o["yaw"])), "s": core.q(math.sin(o["yaw"])),
             "tau": core.q(o["yaw"] / math.pi), "w": core.q(o["w"]), "l": core.q(o["l"]), "h": core.q(o["h"])}
 
 
@@ -492,8 +753,40 @@ def model_requests(case, out):
     fr = case["frames"][0]
     cc, ss = B.rat_rot(Fraction(fr["pose"]["t"]))
     pose = {"c": core.q(cc), "s": core.q(ss), "tau": core.q(B.yaw_of(cc, ss) / math.pi), "tx": core.q(fr["pose"]["tx"]),
-            "ty": core.q(fr["pose"]["ty"]), "tz": "0"}
-    return [{"pose": pose, "ests": [_mobj(o) for o in fr["ests"]], "gts": [_mobj(o) for o in fr["gts"]]}]
+            "ty": core.q(fr["pose"]["ty"]), "tz": core.q(fr["pose"].get("tz", 0.0))}
+    req = {"pose": pose, "ests": [_mobj(o) for o in fr["ests"]], "gts": [_mobj(o) for o in fr["gts"]],
+           "filter": _filter_request(case, fr)}
+    if len(fr["ests"]) * len(fr["gts"]) > 64:  # large scenes: exact score rows only for the pairs that are compared
+        req["pairs"] = [[p["i"], p["j"]] for p in out["obs"]["pairs"]]
+    return [req]
+
+
+def _per_label(v):
+    """a scalar threshold of the evaluation config stands for one entry per target label"""
+    if v is None:
+        return None
+    return [core.q(x) for x in (v if isinstance(v, list) else [v] * len(LABELS))]
+
+
+def _filter_request(case, fr):
+    """the two filters the ground truths of a frame go through (evaluation config, then critical object filter) and the
+    frame-free attributes of the ground truths, in the protocol of the filter model (C10)"""
+    c = case["cfg"]
+    targets = [f"AutowareLabel.{MEMBER[l]}" for l in LABELS]
+
+    def params(spec, extra, default_pts):
+        xy = spec["kind"] == "xy"
+        pts = extra.get("min_pts", default_pts)
+        return {"is_gt": True, "targets": targets, "ignore": extra.get("ignore"),
+                "max_x": _per_label(spec["max_x"]) if xy else None, "max_y": _per_label(spec["max_y"]) if xy else None,
+                "max_dist": None if xy else _per_label(spec["max"]), "min_dist": None if xy else _per_label(spec["min"]),
+                "conf": _per_label(extra.get("conf")), "uuids": extra.get("uuids"),
+                "min_pts": None if pts is None else (list(pts) if isinstance(pts, list) else [pts] * len(LABELS))}
+
+    mgr_default = None if case["task"] == "tracking" else [0, 0, 0, 0]
+    tags = [{"id": g["id"], "label": f"AutowareLabel.{MEMBER[g['label']]}", "name": g["label"], "attrs": list(g.get("attrs") or []),
+             "score": "1", "pc": g.get("pc", 10), "uuid": g["uuid"]} for g in fr["gts"]]
+    return {"mgr": params(c["filter"], c, mgr_default), "crit": params(c["crit"], c["crit"], None), "tags": tags}
 
 
 def _near(a, b, rel, ab):
@@ -507,17 +800,24 @@ def compare(case, out, resps):
     obs = out["obs"]
     for side in ("ests", "gts"):
         for k, (real, mod) in enumerate(zip(obs[side], r[side])):
-            pos, back, yaw = real
+            pos, back, yaw, bev_ego, bev_map = real
             if not (_near(pos[0], Fraction(mod["x"]), 1e-12, 1e-7) and _near(pos[1], Fraction(mod["y"]), 1e-12, 1e-7)):
                 return f"{side}[{k}] map position {pos} != model ({float(Fraction(mod['x']))}, {float(Fraction(mod['y']))})"
             if not (_near(back[0], Fraction(mod["ego_x"]), 0, 1e-6) and _near(back[1], Fraction(mod["ego_y"]), 0, 1e-6)):
                 return f"{side}[{k}] ego-relative position from the real transform {back} != model"
+            if not (_near(pos[2], Fraction(mod["z"]), 1e-12, 1e-7) and _near(back[2], Fraction(mod["ego_z"]), 0, 1e-6)):
+                return (f"{side}[{k}] height: map {pos[2]} / relative to the ego {back[2]} != model "
+                        f"{float(Fraction(mod['z']))} / {float(Fraction(mod['ego_z']))}")
+            for nm, real_d, key in (("ego", bev_ego, "bev2_ego"), ("map", bev_map, "bev2_map")):
+                if real_d is not None and not _near(real_d ** 2, Fraction(mod[key]), 1e-9, 1e-6):
+                    return (f"{side}[{k}] BEV distance of the {nm} rendering {real_d} != model "
+                            f"{math.sqrt(float(Fraction(mod[key])))} (planar norm of the ego-relative position)")
             dy = (yaw / math.pi - float(Fraction(mod["tau"]))) % 2.0
             if min(dy, 2.0 - dy) > 1e-9:
                 return f"{side}[{k}] map yaw {yaw} != model tau {float(Fraction(mod['tau']))}"
-    for p in obs["pairs"]:
+    for n, p in enumerate(obs["pairs"]):
         for rendering, tol in (("ego", 1e-9), ("map", 1e-6)):
-            m = r[rendering][p["i"]][p["j"]]
+            m = r[rendering + "_rows"][n] if rendering + "_rows" in r else r[rendering][p["i"]][p["j"]]
             real = p[rendering]
             checks = [("center", real[0] ** 2, m["center2"]), ("iou2d", real[2], m["iou2d"]), ("iou3d", real[3], m["iou3d"]),
                       ("aph", real[4], m["aph"])]
@@ -530,6 +830,12 @@ def compare(case, out, resps):
             my = float(Fraction(m["yaw_err"]))
             if not (abs(ye - my) <= 1e-9 or (abs(abs(ye) - 1) < 1e-9 and abs(abs(my) - 1) < 1e-9)):
                 return f"pair {p['i']},{p['j']} [{rendering}] yaw error: real {ye} != model {my}"
+    # the ground truths that survive both filters (all criteria), frame 0, against the filter model on the 3-D scene
+    if not out["near"] and "gt_kept_ego" in r:
+        for rendering in ("ego", "map"):
+            mod, real = r[f"gt_kept_{rendering}"], out[rendering]["frames"][0]["gt_kept"]
+            if mod.get("ok") != real:
+                return f"ground truths kept by the two filters [{rendering} rendering]: real {real} != model {mod}"
     # object identity: `==` of the real objects vs the model's equality table (same pose) and the frame-free label
     fr = case["frames"][0]
     for side in ("gts", "ests"):
@@ -604,6 +910,32 @@ def branches(case, out):
     if npairs == 0:
         br.append("trivial")
     br += _twin_branches(case, out)
+    br += _criteria_branches(case, out)
+    return br
+
+
+def _criteria_branches(case, out):
+    """histogram keys of the criteria family: what happened to every witness in the ego rendering (frame 0)"""
+    if case.get("family") != "criteria":
+        return []
+    fr, f = case["frames"][0], out["ego"]["frames"][0]
+    br = ["criteria:" + ("all-on" if len(case["on"]) == len(SWITCHES) else "all-off" if not case["on"] else
+                         "solo:" + case["on"][0] if len(case["on"]) == 1 else "mixed")]
+    br += [f"3d:ego-z:{'zero' if fr['pose'].get('tz', 0.0) == 0.0 else 'nonzero'}"]
+    est_kept = {p[0] for p in f["pairs"]}
+    for g in fr["gts"]:
+        state = "kept" if g["id"] in f["gt_kept"] else "removed"
+        role = g["role"]
+        lv, _, crit = role.partition("-")
+        sw = {"pts": "min_pts", "conf": "conf", "uuid": "uuid", "attr": "attr"}.get(crit.split("-")[0])
+        if lv in ("mgr", "crit") and sw:
+            role += ":on" if f"{lv}:{sw}" in case["on"] else ":off"
+        br.append(f"witness:gt:{role}:{state}")
+    for e in fr["ests"]:
+        if "conf" in e["role"] or e["role"] in ("lonely-est", "unknown-est") or "straddle" in e["role"]:
+            lv = e["role"].split("-")[0]
+            tag = (":on" if f"{lv}:conf" in case["on"] else ":off") if "conf" in e["role"] else ""
+            br.append(f"witness:est:{e['role']}{tag}:{'kept' if e['id'] in est_kept else 'removed'}")
     return br
 
 
